@@ -7,6 +7,9 @@ PROFILE = dict(p_table_junk=0.06, optional_absent=0.4, p_dangling_style=0.4, p_n
                p_break=0.2, style_map=0.4, markdown=0.33, p_field=0.2, p_comment=0.15, p_note=0.15, separators=True, p_embedded_map=0.15, p_empty=0.25, p_comment_in_comment=0.5)
 # optional content of the numbering / styles / relationships parts and of w:rPr as Word writes it (opt-in keys of gen_docx)
 PROFILE.update(p_num_noise=0.4, p_optional_children=0.45, p_rpr_noise=0.3)
+# content controls at every level with a full w:sdtPr (cell-level and row-level ones inside tables; check boxes that hold their glyph, controls showing
+# their placeholder), picture parts whose names hold percent escapes / blanks / non-ASCII letters (opt-in keys of gen_docx)
+PROFILE.update(p_table_sdt=0.18, p_sdt_rich=0.5, p_media_names=0.4)
 
 
 def returns_normally(case, r):
@@ -42,6 +45,10 @@ def run(out, tier, seed, model_ok):
                 "(w:lvlOverride empty / start only / with w:lvl, picture bullets, w:name / w:styleLink, w:isLgl / w:legacy, a w:numFmt inside mc:AlternateContent; w:basedOn / "
                 "w:link / w:pPr / w:rPr / w:tblStylePr of styles, numbering styles with w:pPr / w:numPr / w:numId each optional, w:latentStyles, w:docDefaults; TargetMode) and "
                 "runs carry properties the converter does not read; non-trivial = at least one dangling/absent/unknown construct")
+    out.rule += ("; content controls at run, block, CELL and ROW level (w:tr > w:sdt > w:sdtContent > w:tc, w:tbl > w:sdt > w:sdtContent > w:tr; one control around several "
+                 "neighbours, a control in a control) with the w:sdtPr children authoring tools write (alias, tag, id, lock, placeholder + w:showingPlcHdr in every on/off "
+                 "spelling, data binding, one of sixteen kind elements, w14:checkbox with its glyph content); picture parts whose names hold percent escapes, blanks, "
+                 "non-ASCII letters (NFC and NFD), upper case, sub-directories - item name and relationship target character for character the same")
     out.extra["features"] = run_.stats
     out.sample({"options": cs[0]["options"], "parts": [p["name"] for p in cs[0]["parts"]]})
 
